@@ -48,10 +48,16 @@ func recSeq(o, k int) string {
 	return string(b)
 }
 
+// bigBatches (C18 only, sequential runs): batches whose single record is larger than the 4 KiB bufio buffer
+var bigBatches map[int]bool
+
 func mkBatch(o, size int, withQual bool) obiiter.BioSequenceBatch {
 	sl := obiseq.MakeBioSequenceSlice()
 	for k := 1; k <= size; k++ {
 		s := recSeq(o, k)
+		if bigBatches[o] {
+			s = strings.Repeat(s, 5000/len(s)+1)
+		}
 		var bs *obiseq.BioSequence
 		if withQual {
 			q := make([]byte, len(s))
@@ -77,6 +83,10 @@ type writerRun struct {
 
 // runWriter pushes the batches in `arrival` order into the real writer.
 func runWriter(format string, sizes, arrival []int, workers int, snk *sink, compressed bool) writerRun {
+	return runWriterPatience(format, sizes, arrival, workers, snk, compressed, 20*time.Second)
+}
+
+func runWriterPatience(format string, sizes, arrival []int, workers int, snk *sink, compressed bool, patience time.Duration) writerRun {
 	it := obiiter.MakeIBioSequence()
 	it.Add(1)
 	go func() { it.WaitAndClose() }()
@@ -118,7 +128,6 @@ func runWriter(format string, sizes, arrival []int, workers int, snk *sink, comp
 		}
 		close(drained)
 	}()
-	const patience = 20 * time.Second
 	if !waitTimeout(drained, patience) {
 		r.hungIter = true
 	}
